@@ -29,6 +29,19 @@ pub struct Sc {
     pub wrap: Option<usize>,
     /// algorithm-name strings to push through Digest::from_str
     pub names: Vec<String>,
+    /// an earlier call on the same thread (state left by earlier calls must
+    /// not leak into the next one): hashed and judged first
+    #[serde(default)]
+    pub prelude: Option<Box<Call>>,
+}
+
+#[derive(Clone, Debug, Serialize, Deserialize)]
+pub struct Call {
+    pub mode: Mode,
+    pub alg: usize,
+    #[serde(with = "esc")]
+    pub data: Vec<u8>,
+    pub script: Vec<ReadStep>,
 }
 
 pub struct C13;
@@ -52,8 +65,20 @@ pub fn gen_patch(rng: &mut Rng, tier: Tier) -> Vec<u8> {
     let nlines = rng.urange(0, 12);
     let mut out = Vec::new();
     for i in 0..nlines {
-        let kind = rng.below(14);
+        let kind = rng.below(17);
         let line: Vec<u8> = match kind {
+            14 => rng
+                .pick(&[
+                    &b"$$NetBSD$"[..],
+                    &b"$Net$NetBSD: x $"[..],
+                    &b"$NetBS$NetBSD"[..],
+                    &b"x$$NetBSD: y $ z"[..],
+                    &b"$N$Ne$Net$NetB$NetBS$NetBSD"[..],
+                    &b"${PREFIX}/bin $NetBSD$"[..],
+                ])
+                .to_vec(),
+            15 => b"$NetBSD$NetBSD$".to_vec(),
+            16 => b"$NetBS$NetBS".to_vec(),
             0 => b"$NetBSD$".to_vec(),
             1 => b"$NetBSD: patch-aa,v 1.2 2024/01/01 00:00:00 joe Exp $".to_vec(),
             2 => b"+/* $NetBSD: foo.c,v 1.1 $ */ int x;".to_vec(),
@@ -299,19 +324,223 @@ impl Property for C13 {
         } else {
             None
         };
+        let names = gen_names(rng);
+        let prelude = if rng.chance(1, 4) {
+            // an earlier call, usually one that ends in a fault part-way through a line
+            let pmode = if rng.chance(2, 3) { Mode::Patch } else { Mode::File };
+            let pdata = match pmode {
+                Mode::Patch => gen_patch(rng, tier),
+                Mode::File => {
+                    let n = rng.urange(1, 200);
+                    gen_bytes(rng, n)
+                }
+            };
+            let mut pscript = Vec::new();
+            if !pdata.is_empty() {
+                let cut = rng.urange(0, pdata.len().min(300));
+                if cut > 0 {
+                    pscript.push(ReadStep::Give(cut));
+                }
+                match rng.below(4) {
+                    0 => {}
+                    1 => pscript.push(ReadStep::Eof),
+                    2 => pscript.push(ReadStep::Intr),
+                    _ => pscript.push(ReadStep::Fail(*rng.pick(&ErrKind::ALL))),
+                }
+            }
+            Some(Box::new(Call {
+                mode: pmode,
+                alg: if rng.chance(1, 2) { alg } else { rng.usize_below(6) },
+                data: pdata,
+                script: pscript,
+            }))
+        } else {
+            None
+        };
         Sc {
             mode,
             alg,
             data,
             script,
             wrap,
-            names: gen_names(rng),
+            names,
+            prelude,
         }
     }
 
     fn execute(&self, sc: &Sc, ctx: &mut Ctx) -> Outcome {
+        if let Some(pre) = &sc.prelude {
+            ctx.probe("earlier-call-on-same-thread");
+            let pre_sc = Sc {
+                mode: pre.mode,
+                alg: pre.alg,
+                data: pre.data.clone(),
+                script: pre.script.clone(),
+                wrap: None,
+                names: vec![],
+                prelude: None,
+            };
+            if let Err(mut v) = one_call(&pre_sc, ctx) {
+                v.detail = format!("(earlier call) {}", v.detail);
+                return Err(v);
+            }
+        }
+        if let Err(mut v) = one_call(sc, ctx) {
+            if sc.prelude.is_some() {
+                v.detail = format!("(after an earlier call on the same thread) {}", v.detail);
+            }
+            return Err(v);
+        }
+        Ok(())
+    }
+
+    fn shrink(&self, sc: &Sc) -> Vec<Sc> {
+        let mut out = Vec::new();
+        if let Some(pre) = &sc.prelude {
+            out.push(Sc { prelude: None, ..sc.clone() });
+            for d in shrink_vec(&pre.data) {
+                let mut p2 = pre.clone();
+                p2.data = d;
+                out.push(Sc { prelude: Some(p2), ..sc.clone() });
+            }
+            for st in shrink_vec(&pre.script) {
+                let mut p2 = pre.clone();
+                p2.script = st;
+                out.push(Sc { prelude: Some(p2), ..sc.clone() });
+            }
+        }
+        for s in shrink_vec(&sc.script) {
+            out.push(Sc { script: s, ..sc.clone() });
+        }
+        for d in shrink_vec(&sc.data) {
+            out.push(Sc { data: d, ..sc.clone() });
+        }
+        if sc.wrap.is_some() {
+            out.push(Sc { wrap: None, ..sc.clone() });
+        }
+        if !sc.names.is_empty() {
+            for n in shrink_vec(&sc.names) {
+                out.push(Sc { names: n, ..sc.clone() });
+            }
+        }
+        // simplify bytes
+        if sc.data.iter().any(|&c| c != b'a' && c != b'\n') && sc.data.len() <= 64 {
+            for i in 0..sc.data.len() {
+                if sc.data[i] != b'a' && sc.data[i] != b'\n' {
+                    let mut d = sc.data.clone();
+                    d[i] = b'a';
+                    out.push(Sc { data: d, ..sc.clone() });
+                }
+            }
+        }
+        // simplify script steps
+        for (i, st) in sc.script.iter().enumerate().take(32) {
+            if let ReadStep::Give(n) = st {
+                for m in shrink_usize(*n) {
+                    if m >= 1 {
+                        let mut s = sc.script.clone();
+                        s[i] = ReadStep::Give(m);
+                        out.push(Sc { script: s, ..sc.clone() });
+                    }
+                }
+            }
+        }
+        out
+    }
+
+    fn sweep(&self, sc: &Sc, run: u64, tier: Tier) -> Vec<Sc> {
+        // complete enumerations for small inputs: every single-read split
+        // position, and a hard error / EINTR / EOF at every call index of the
+        // generated script
+        let every = if tier == Tier::Quick { 16 } else { 64 };
+        if run % every != 0 || sc.data.len() > 300 {
+            return Vec::new();
+        }
+        let mut out = Vec::new();
+        for k in 1..sc.data.len() {
+            out.push(Sc {
+                script: vec![ReadStep::Give(k)],
+                wrap: None,
+                names: vec![],
+                ..sc.clone()
+            });
+        }
+        let base: Vec<ReadStep> = sc
+            .script
+            .iter()
+            .cloned()
+            .filter(|s| matches!(s, ReadStep::Give(_) | ReadStep::Intr))
+            .take(48)
+            .collect();
+        for k in 0..=base.len() {
+            for st in [ReadStep::Fail(ErrKind::Other), ReadStep::FailForever(ErrKind::TimedOut), ReadStep::Intr, ReadStep::Eof] {
+                let mut s = base.clone();
+                s.insert(k, st);
+                out.push(Sc {
+                    script: s,
+                    names: vec![],
+                    ..sc.clone()
+                });
+            }
+        }
+        out
+    }
+
+    fn classify(&self, sc: &Sc, _v: &Violation) -> String {
+        format!("{:?}", sc.mode)
+    }
+
+    fn rule(&self) -> String {
+        "Each run draws (entry point, algorithm, byte string, read script) from one PRNG; the script \
+         decides the size of every read and where EINTR, one hard error or an early EOF falls. A run \
+         is non-trivial when at least one read boundary fell strictly inside the data or a fault \
+         fired; distinct = distinct schedule signatures (hash of the sequence of read events with \
+         their lengths and fault kinds) among non-trivial runs. For inputs of at most 300 bytes a \
+         subset of runs additionally sweeps every single-split position and a fault at every call \
+         index of the script (sweep_evaluations; complete for that input)."
+            .to_string()
+    }
+    fn components_real(&self) -> Vec<&'static str> {
+        vec![
+            "pkgsrc::digest::Digest::{hash_file,hash_patch,hash_str,from_str,Display}",
+            "std::io::copy, std::io::BufReader, BufRead::split",
+            "RustCrypto hashers",
+        ]
+    }
+    fn components_stub(&self) -> Vec<&'static str> {
+        vec!["the reader (SimReader: scripted io::Read)"]
+    }
+    fn assumptions(&self) -> Vec<&'static str> {
+        vec![
+            "the reference is the RustCrypto one-shot digest of the whole byte string, pinned by embedded published known-answer vectors for four inputs per algorithm",
+            "algorithm-name case-insensitivity is checked over ASCII case patterns only",
+            "after an early EOF the expected value is the digest of the delivered prefix",
+        ]
+    }
+    fn expected_probes(&self) -> Vec<&'static str> {
+        vec![
+            "marker-straddles-read",
+            "newline-straddles-read",
+            "line-longer-than-buffer",
+            "final-line-unterminated",
+            "eintr-at-first-call",
+            "eintr-at-eof-call",
+            "error-at-first-call",
+            "error-at-middle-call",
+            "error-at-last-call",
+            "entry-hash_file",
+            "entry-hash_patch",
+            "entry-hash_str",
+            "earlier-call-on-same-thread",
+        ]
+    }
+}
+
+/// One hashing call over a scripted reader, judged against the reference.
+fn one_call(sc: &Sc, ctx: &mut Ctx) -> Outcome {
         let alg = ALGS[sc.alg];
         let reader = SimReader::new(sc.data.clone(), sc.script.clone());
+
         let log = reader.log();
         let res = match (sc.mode, sc.wrap) {
             (Mode::File, None) => {
@@ -514,131 +743,3 @@ impl Property for C13 {
         }
         Ok(())
     }
-
-    fn shrink(&self, sc: &Sc) -> Vec<Sc> {
-        let mut out = Vec::new();
-        for s in shrink_vec(&sc.script) {
-            out.push(Sc { script: s, ..sc.clone() });
-        }
-        for d in shrink_vec(&sc.data) {
-            out.push(Sc { data: d, ..sc.clone() });
-        }
-        if sc.wrap.is_some() {
-            out.push(Sc { wrap: None, ..sc.clone() });
-        }
-        if !sc.names.is_empty() {
-            for n in shrink_vec(&sc.names) {
-                out.push(Sc { names: n, ..sc.clone() });
-            }
-        }
-        // simplify bytes
-        if sc.data.iter().any(|&c| c != b'a' && c != b'\n') && sc.data.len() <= 64 {
-            for i in 0..sc.data.len() {
-                if sc.data[i] != b'a' && sc.data[i] != b'\n' {
-                    let mut d = sc.data.clone();
-                    d[i] = b'a';
-                    out.push(Sc { data: d, ..sc.clone() });
-                }
-            }
-        }
-        // simplify script steps
-        for (i, st) in sc.script.iter().enumerate().take(32) {
-            if let ReadStep::Give(n) = st {
-                for m in shrink_usize(*n) {
-                    if m >= 1 {
-                        let mut s = sc.script.clone();
-                        s[i] = ReadStep::Give(m);
-                        out.push(Sc { script: s, ..sc.clone() });
-                    }
-                }
-            }
-        }
-        out
-    }
-
-    fn sweep(&self, sc: &Sc, run: u64, tier: Tier) -> Vec<Sc> {
-        // complete enumerations for small inputs: every single-read split
-        // position, and a hard error / EINTR / EOF at every call index of the
-        // generated script
-        let every = if tier == Tier::Quick { 16 } else { 64 };
-        if run % every != 0 || sc.data.len() > 300 {
-            return Vec::new();
-        }
-        let mut out = Vec::new();
-        for k in 1..sc.data.len() {
-            out.push(Sc {
-                script: vec![ReadStep::Give(k)],
-                wrap: None,
-                names: vec![],
-                ..sc.clone()
-            });
-        }
-        let base: Vec<ReadStep> = sc
-            .script
-            .iter()
-            .cloned()
-            .filter(|s| matches!(s, ReadStep::Give(_) | ReadStep::Intr))
-            .take(48)
-            .collect();
-        for k in 0..=base.len() {
-            for st in [ReadStep::Fail(ErrKind::Other), ReadStep::FailForever(ErrKind::TimedOut), ReadStep::Intr, ReadStep::Eof] {
-                let mut s = base.clone();
-                s.insert(k, st);
-                out.push(Sc {
-                    script: s,
-                    names: vec![],
-                    ..sc.clone()
-                });
-            }
-        }
-        out
-    }
-
-    fn classify(&self, sc: &Sc, _v: &Violation) -> String {
-        format!("{:?}", sc.mode)
-    }
-
-    fn rule(&self) -> String {
-        "Each run draws (entry point, algorithm, byte string, read script) from one PRNG; the script \
-         decides the size of every read and where EINTR, one hard error or an early EOF falls. A run \
-         is non-trivial when at least one read boundary fell strictly inside the data or a fault \
-         fired; distinct = distinct schedule signatures (hash of the sequence of read events with \
-         their lengths and fault kinds) among non-trivial runs. For inputs of at most 300 bytes a \
-         subset of runs additionally sweeps every single-split position and a fault at every call \
-         index of the script (sweep_evaluations; complete for that input)."
-            .to_string()
-    }
-    fn components_real(&self) -> Vec<&'static str> {
-        vec![
-            "pkgsrc::digest::Digest::{hash_file,hash_patch,hash_str,from_str,Display}",
-            "std::io::copy, std::io::BufReader, BufRead::split",
-            "RustCrypto hashers",
-        ]
-    }
-    fn components_stub(&self) -> Vec<&'static str> {
-        vec!["the reader (SimReader: scripted io::Read)"]
-    }
-    fn assumptions(&self) -> Vec<&'static str> {
-        vec![
-            "the reference is the RustCrypto one-shot digest of the whole byte string, pinned by embedded published known-answer vectors for four inputs per algorithm",
-            "algorithm-name case-insensitivity is checked over ASCII case patterns only",
-            "after an early EOF the expected value is the digest of the delivered prefix",
-        ]
-    }
-    fn expected_probes(&self) -> Vec<&'static str> {
-        vec![
-            "marker-straddles-read",
-            "newline-straddles-read",
-            "line-longer-than-buffer",
-            "final-line-unterminated",
-            "eintr-at-first-call",
-            "eintr-at-eof-call",
-            "error-at-first-call",
-            "error-at-middle-call",
-            "error-at-last-call",
-            "entry-hash_file",
-            "entry-hash_patch",
-            "entry-hash_str",
-        ]
-    }
-}
